@@ -92,6 +92,23 @@ def native_cases():
         RED = 'red'
         BLUE = 'blue'
 
+    class Mode(str, enum.Enum):            # members ARE strings
+        FAST = 'fast'
+        SLOW = 'slow'
+
+    class Prio(enum.IntEnum):              # members ARE ints
+        LOW = 1
+        HIGH = 2
+
+    class Ratio(float, enum.Enum):
+        HALF = 0.5
+
+    class Task(pane.PaneBase):
+        mode: Mode = Mode.FAST
+        prio: Prio = Prio.LOW
+        modes: t.List[Mode] = pane.field(default_factory=list)
+        by_prio: t.Dict[str, Prio] = pane.field(default_factory=dict)
+
     class P(pane.PaneBase):
         x: int
         y: t.List[float] = pane.field(default_factory=list)
@@ -111,6 +128,8 @@ def native_cases():
         event_id: int
         label_text: str = 'l'
     base = [
+        (Mode, Mode.SLOW, 'str-enum'), (Prio, Prio.HIGH, 'int-enum'), (Ratio, Ratio.HALF, 'float-enum'), (t.Optional[Mode], Mode.FAST, 'optional str-enum'),
+        (t.Union[Mode, str], Mode.FAST, 'str-enum|str'), (Task, Task.make_unchecked(Mode.SLOW, Prio.HIGH, [Mode.FAST], {'k': Prio.LOW}), 'dataclass with mixin-enum fields'),
         (Acc, Acc(7), 'in_names without the Python name'), (Ev, Ev(3), 'in_rename only'),
         (fractions.Fraction, fractions.Fraction(1, 3), 'Fraction'), (decimal.Decimal, decimal.Decimal('1.50'), 'Decimal'),
         (datetime.datetime, datetime.datetime(2020, 1, 2, 3, 4, 5), 'datetime'), (datetime.date, datetime.date(2020, 1, 2), 'date'),
